@@ -98,6 +98,45 @@ theorem decode_ne_panic (bs : List Nat) (h : ∀ b ∈ bs, b < 256) : (tryFrom b
       | panic x => rw [hd] at hb; simp [Outcome.isPanic] at hb
       | ok v => simp only []; split <;> rfl
 
+/-- `Message::from_bytes` (the entry point of jet1090's de-duplicator and of decode1090) is total too -/
+theorem from_bytes_ne_panic (bs : List Nat) (h : ∀ b ∈ bs, b < 256) : (fromBytes bs).isPanic = false := by
+  unfold fromBytes
+  cases bs with
+  | nil => rfl
+  | cons b0 rest =>
+    simp only []
+    split
+    · rfl
+    · have hb := decodeBuf_ne_panic b0 ((b0 :: rest).take (frameBits b0 / 8))
+        (fun b hb => h b (List.mem_of_mem_take hb))
+      cases hd : decodeBuf b0 ((b0 :: rest).take (frameBits b0 / 8)) with
+      | err e => rfl
+      | panic x => rw [hd] at hb; simp [Outcome.isPanic] at hb
+      | ok v => rfl
+
+/-- the two entry points differ only by the length test: `try_from` is `from_bytes` restricted to inputs
+    of exactly the announced length, and on those they agree -/
+theorem tryFrom_eq_fromBytes (bs : List Nat) (d : Decoded) (h : tryFrom bs = .ok d) : fromBytes bs = .ok d := by
+  unfold tryFrom at h
+  unfold fromBytes
+  cases bs with
+  | nil => cases h
+  | cons b0 rest =>
+    simp only [] at h ⊢
+    split at h
+    · cases h
+    · rename_i hl
+      rw [if_neg hl]
+      cases hd : decodeBuf b0 ((b0 :: rest).take (frameBits b0 / 8)) with
+      | err e => rw [hd] at h; cases h
+      | panic x => rw [hd] at h; cases h
+      | ok v =>
+        rw [hd] at h
+        simp only [] at h ⊢
+        split at h
+        · cases h
+        · exact h
+
 /-- **Rendering** (partial — a syntactic obligation, not a semantic model): none of the 39
     `impl fmt::Display` / hand-written `impl fmt::Debug` blocks of the decoder contains an indexing or
     slicing expression, `unwrap`/`expect`, integer arithmetic, a shift, a narrowing cast or a panicking
